@@ -119,6 +119,10 @@ def gen_case(rng):
     else:
         cap = rng.choice([1, 2, 3, 3, INF])
         init = 0
+    exact = None
+    if kind == "Container" and amounts[0] != 0.5 and rng.random() < 0.2:
+        # amounts that no float can hold: integers beyond 2**53, or thirds -- the level arithmetic is exact
+        exact = rng.choice(["bigint", "fraction"])
     procs = []
     deep = kind == "PriorityStore" and rng.random() < 0.6      # many items held at once: exercises the heap
     if deep:
@@ -136,11 +140,12 @@ def gen_case(rng):
                 "patience": rng.choice([None, None, 0, 1, 2, 3]),
                 "form": rng.choice(["plain", "with"]),
                 "reput": kind in ("Store", "FilterStore") and rng.random() < 0.12,
+                "keep": rng.random() < 0.2,      # after the patience ran out: keep the request and wait for it again
             })
         procs.append(its)
     pokes = [[rng.choice([0.5, 1, 2, 3, 4, 5]), rng.randrange(nproc)] for _ in range(rng.randint(0, 4))]
     return {"kind": kind, "capacity": "inf" if cap == INF else cap, "init": init, "procs": procs, "pokes": sorted(pokes),
-            "float_amounts": amounts[0] == 0.5, "wrap": kind == "PriorityStore" and rng.random() < 0.3}
+            "float_amounts": amounts[0] == 0.5, "exact_amounts": exact, "wrap": kind == "PriorityStore" and rng.random() < 0.3}
 
 
 class Ledger:
@@ -308,6 +313,19 @@ def run_case(case, stats):
     Env = kern.make_monenv(K.Environment)
     env = Env()
     kind = case["kind"]
+    if case.get("exact_amounts"):
+        # every amount, the capacity and the initial level scaled into a number type no float can hold
+        import copy
+        from fractions import Fraction
+        A = (lambda x: x * (2 ** 53 + 1)) if case["exact_amounts"] == "bigint" else (lambda x: Fraction(x, 3))
+        case = copy.deepcopy(case)
+        case["init"] = A(case["init"])
+        if case["capacity"] != "inf":
+            case["capacity"] = A(case["capacity"])
+        for its in case["procs"]:
+            for it in its:
+                it["amount"] = A(it["amount"])
+        stats["exact_amount_cases"] += 1
     cap = INF if case["capacity"] == "inf" else case["capacity"]
     if kind == "Container":
         res = Container(env, cap, case["init"])
@@ -369,6 +387,11 @@ def run_case(case, stats):
             else:
                 r = yield from wait(ev | env.timeout(it["patience"]))
             lg.sync("after-wait")
+            if not ev.triggered and it.get("keep") and it["patience"] is not None and r[0] == "ok":
+                # the timeout of `request | timeout` won; the request is neither cancelled nor given up: waited for again
+                stats["requests_kept_after_timeout"] += 1
+                r = yield from wait(ev)
+                lg.sync("after-second-wait")
             if not ev.triggered:
                 # cancel a still-waiting request; is it the head of its queue with a follower?
                 same = [x for x in lg.pending if x["op"] == rec["op"]]
@@ -433,7 +456,7 @@ def run_case(case, stats):
 KEYS = ("grants", "advance_checks", "cancels_waiting", "head_cancelled_with_follower", "deliveries_checked",
         "equal_distinct_deliveries", "fcfs_checks", "level_checks", "mixed_syncs", "granted_after_waiting",
         "advance_with_waiters", "cancel_noop_granted", "pokes", "filter_nomatch_waits", "prio_deliveries_from_4plus", "filter_later_getter_checks",
-        "same_object_put_again", "priorityitem_puts")
+        "same_object_put_again", "priorityitem_puts", "requests_kept_after_timeout", "exact_amount_cases")
 
 
 def one_case(ctx, case):
